@@ -281,6 +281,16 @@ impl TemplatedFileInner {
         self.templated_str.as_deref().unwrap()
     }
 
+    /// Verification hook (only with `--cfg sqruff_verif`): the raw slices as
+    /// (source_idx, slice_type, byte length).
+    #[cfg(sqruff_verif)]
+    pub fn verif_raw_sliced(&self) -> Vec<(usize, String, usize)> {
+        self.raw_sliced
+            .iter()
+            .map(|r| (r.source_idx, r.slice_type.clone(), r.raw.len()))
+            .collect()
+    }
+
     pub fn source_only_slices(&self) -> Vec<RawFileSlice> {
         let mut ret_buff = vec![];
         for element in &self.raw_sliced {
